@@ -233,19 +233,22 @@ def buildComplaint (s : St O) : St O × List Out :=
     (s.setC s.me { received := true, answerReceived := false },
      [.flag s.dealer, .bcast [tagComplaint, UInt8.ofNat s.dealer]])
 
+/-- a malformed share: complain, then flag the dealer -/
+def badShare (s : St O) (origin : Nat) : St O × List Out :=
+  ((buildComplaint s).1, (buildComplaint s).2 ++ [.flag origin])
+
 def receiveShare (s : St O) (origin : Nat) (data : Bytes) : St O × List Out :=
   if origin ≠ s.dealer then (s, [])
   else if s.sharesTimeout then (s, [.flag origin])
   else if s.xReceived then (s, [.flag origin])
   else
     let s := { s with xReceived := true }
-    let bad (s : St O) : St O × List Out := let (s', o) := buildComplaint s; (s', o ++ [.flag origin])
-    if data.length = 0 ∨ data.headD 0 ≠ tagShare then bad s
+    if data.length = 0 ∨ data.headD 0 ≠ tagShare then badShare s origin
     else
       let data := data.drop 1
-      if data.length ≠ shareSize then bad s
+      if data.length ≠ shareSize then badShare s origin
       else match O.readScalar data with
-        | none => bad s
+        | none => badShare s origin
         | some x =>
           let s := { s with x := x }
           if s.vAReceived then
